@@ -49,6 +49,20 @@ def generate(rng, tier):
             typ, none_items = muxgen.INT, True
             trace = muxgen.gen_trace(rng, typ, max_items=4)
             trace = [(['n', e[1], enc(None)] if e[0] == 'n' and rng.random() < 0.5 else e) for e in trace]
+        if rng.random() < 0.05:
+            # iterables that are neither list nor tuple reaching flat_map (no Coq model: oracle only)
+            ast = [['map', [rng.choice(['torange', 'todeque'])]], ['flat_map']] + \
+                  ([['duc', None]] if rng.random() < 0.5 else [])
+            typ, none_items = muxgen.INT, False
+            trace = muxgen.gen_trace(rng, typ, max_items=5)
+        if rng.random() < 0.06:
+            # an operator that remembers the previous item of its key, bursts of one key then another (A A B A)
+            ast = [rng.choice([['assert1', ['lt']], ['assert1', ['le']], ['duc', None], ['scan', ['add'], enc(0), 0, None]])] + \
+                  g.pipe(muxgen.INT, 0, rng.randint(0, 2))[0]
+            if muxgen.has_take(ast):
+                ast = [ast[0]]
+            typ, none_items = muxgen.INT, False
+            trace = muxgen.gen_trace(rng, typ, nkeys=rng.choice([2, 3]), sorted_=True, bursts=True)
         kind = 'groupby' if rng.random() < 0.2 else 'keys'
         cases.append({'ast': ast, 'trace': trace, 'kind': kind,
                       'km': ['isnone'] if none_items else (['gt', enc(2.0)] if typ == muxgen.FLT else g.int_key())})
